@@ -33,6 +33,7 @@ def gen(rng, tier):
             continue
         case = dict(case)
         case['allow'] = rng.random() < 0.7
+        case['flagtype'] = rng.choice([None, None, None, 'np', 'int'])
         yield case
 
 
@@ -58,7 +59,9 @@ def impl(case):
         except Exception:  # noqa
             pass
         M[:] = new      # same ndarray object, new contents
-    v = mh.msm.equilibrium_population(M, allow_non_ergodic=case['allow'])
+    # the flag as the caller may hold it: a Python bool, a NumPy bool (e.g. from a comparison) or 0 / 1
+    flag = {None: case['allow'], 'np': np.bool_(case['allow']), 'int': int(case['allow'])}[case.get('flagtype')]
+    v = mh.msm.equilibrium_population(M, allow_non_ergodic=flag)
     v2 = mh.msm.peq(M, allow_non_ergodic=case['allow'])
     layout_diff = []
     if not np.iscomplexobj(v) and M.ndim == 2 and M.shape[0] == M.shape[1]:
